@@ -33,4 +33,19 @@ structure Meets (cfg : Config) (l : Node) (targets : List Addr) (r d' : Node) : 
   merged : ∀ t ∈ targets, ∃ old m, l.get? t = some old ∧ c05 cfg old r = .ok m ∧ d'.get? t = some m
   frame : ∀ b, (∀ t ∈ targets, Apart t b) → d'.get? b = l.get? b
 
+/-- What a container keeps when something below it is merged: its kind, anchor, and key list /
+length (a Scalar or a Set: everything). -/
+inductive Shape
+  | scalar (a : Option Str) (v : Scalar)
+  | seq (a : Option Str) (len : Nat)
+  | map (a : Option Str) (keys : List Key)
+  | set (a : Option Str) (members : List Key)
+  deriving DecidableEq, Repr
+
+def shape : Node → Shape
+  | .scalar a v => .scalar a v
+  | .seq a items => .seq a items.length
+  | .map a es => .map a (es.map Prod.fst)
+  | .set a ms => .set a ms
+
 end Ypv.MergeAt
